@@ -269,6 +269,8 @@ impl StorageEngine {
         // Track expiration if needed
         if let Some(expires_at) = stored_value.metadata.expires_at {
             shard_guard.expiring_keys.insert(key.clone(), expires_at);
+        } else {
+            shard_guard.expiring_keys.remove(&key);
         }
         
         // CRITICAL FIX: Mark as modified BEFORE data change to fix WATCH race condition
